@@ -1,9 +1,9 @@
 (** C15 — property theorems.  This file contains nothing but statements closed by [exact].
     [_R]: the real-number instance of C15/Model.v (the same Gallina term the harness runs
     on binary32); [_any]: every instance of the scalar operations; [_b32]: the IEEE instance. *)
-From Coq Require Import Reals ZArith Bool.
+From Coq Require Import Reals ZArith Bool List.
 From KV Require Import Base.IEEE Base.Outcome C15.Model C15.BaseF32 C15.ProofsR C15.ProofsGains C15.ProofsSide
-     C15.ProofsAtten C15.ProofsFinal.
+     C15.ProofsAtten C15.ProofsFinal C15.ModelHist C15.ProofsHist.
 Local Open Scope R_scope.
 
 (** The level of a spatial track is the product of a distance attenuation [A] — a function of
@@ -136,3 +136,31 @@ Theorem spatial_coincident_R :
     norm2 (v_sub p (v_add p (q_rot lq (v_scale POS_X d)))) = d * d /\
     dist p p = 0.
 Proof. exact coincident_ear_vectors. Qed.
+
+(** Histories.  A parameter that is linked to the listener distance (however and whenever the link
+    was made, whatever happened before) has after every chunk with a listener the mapped distance
+    of THAT chunk, and the previous chunk's value as its previous value; a chunk without a listener
+    leaves it where it was.  [linked_run] is [Parameter::update] of an idle linked parameter, chunk
+    after chunk (C15/ModelHist.v); every scalar instance, hence bit-for-bit. *)
+Theorem distance_param_follows_history :
+  forall (F D : Type) (SF : Scalar F) (SD : Scalar D) (up : F -> D) (down : D -> F) (map_ease : D -> D)
+         (m : mapping F D) (st : F * F) (cs : list (option (listener F) * vec3 F)) (tp : vec3 F),
+    (forall li : listener F,
+       linked_run up down map_ease m st (cs ++ (Some li, tp) :: nil) =
+       (snd (linked_run up down map_ease m st cs),
+        mapping_map down map_ease m (up (v_length (v_sub (l_pos li) tp))))) /\
+    linked_run up down map_ease m st (cs ++ (None, tp) :: nil) =
+    (snd (linked_run up down map_ease m st cs), snd (linked_run up down map_ease m st cs)).
+Proof. exact linked_history. Qed.
+
+(** Listener and emitter riding together: when the previous positions of both are displaced by
+    [T0] and the current positions of both by [T1] (both read the vehicle's displacement of the
+    same chunk), every frame of the chunk — listener and emitter interpolated at [t] — is the
+    frame of the scene at rest: attenuation and both ear gains are unchanged while they move. *)
+Theorem riding_together_R :
+  forall (p10 ease : R -> R) (d sinL cosL sinR cosR dmin dmax : R) (atten : bool) (inp : R * R)
+         (li : listener R) (e : emitter R) (T0 T1 : vec3 R) (t : R),
+    spatial_frame_R p10 ease d sinL cosL sinR cosR dmin dmax atten inp
+                    (Some (shift_listener T0 T1 li)) (shift_emitter T0 T1 e) t =
+    spatial_frame_R p10 ease d sinL cosL sinR cosR dmin dmax atten inp (Some li) e t.
+Proof. exact riding_together. Qed.
